@@ -21,10 +21,24 @@ static const uint8_t GRID16[] = {0x00, 0x01, 0x02, 0x04, 0x05, 0x08, 0x0f, 0x10,
 struct Outcome { bool accepted = false; uint64_t structure = 0; };
 
 static uint64_t g_index = 0;
+static bool g_confirming = false;
 static const EntryPoint* g_ep = 0;
 
 static std::string case_str(const EntryPoint& ep, const uint8_t* p, size_t n) { return "entry=" + ep.name + " hex=" + (n ? hex(p, n) : std::string("-")); }
 
+static std::string deepest_class(const PDU& p) {
+    const PDU* last = &p;
+    for (const PDU* q = &p; q; q = q->inner_pdu()) if (q->pdu_type() != PDU::RAW) last = q;
+    return clsname(*last);
+}
+// the Ethernet dispatch is ambiguous on the wire for a frame without payload (type 0 == 802.3 length 0): re-parse with the root's own class
+static PDU* reparse(const EntryPoint& ep, const PDU& p, const Bytes& y) {
+    if (ep.name == "DLT_EN10MB") {
+        if (p.pdu_type() == PDU::ETHERNET_II) return new EthernetII(y.data(), (uint32_t)y.size());
+        return new Dot3(y.data(), (uint32_t)y.size());
+    }
+    return ep.fn(y.data(), (uint32_t)y.size());
+}
 static uint32_t link_padding(const PDU& p) {
     uint32_t pad = 0;
     for (const PDU* q = &p; q; q = q->inner_pdu())
@@ -44,6 +58,8 @@ static Outcome run_case(const EntryPoint& ep, const uint8_t* data, size_t n, boo
     long ledger0 = live_allocs();
     alarm(20);
     std::string sig, detail;
+    int n_roundtrips = 0, n_skipped_env = 0, n_serialized = 0;
+    uint64_t view_hash = 0;
     PDU* pdu = 0;
     try { pdu = ep.fn(buf, (uint32_t)n); }
     catch (malformed_packet&) {}
@@ -67,35 +83,35 @@ static Outcome run_case(const EntryPoint& ep, const uint8_t* data, size_t n, boo
             } catch (std::exception& e) { if (sig.empty()) { sig = "exc:" + std::string(typeid(e).name()) + ":accessor-sweep:" + ep.name; detail = e.what(); } }
             if (!faults.empty() && sig.empty()) { sig = "exc:accessor:" + faults[0].key; detail = faults[0].what; }
         } else if (PROP == "C02") {
-            if (needs_environment(*pdu)) R.count("skipped_env");
+            if (needs_environment(*pdu)) n_skipped_env++;
             else {
                 SerResult r = checked_serialize(*pdu);
-                R.count("packets_serialized");
+                n_serialized++;
                 if (!r.ok && sig.empty()) { sig = r.sig; detail = r.detail; }
             }
         } else if (PROP == "C03" && ep.serializable && !has_unserializable(*pdu)) {
-            if (needs_environment(*pdu)) R.count("skipped_env");
+            if (needs_environment(*pdu)) n_skipped_env++;
             else {
                 try {
                     PacketView pv = packet_view(*pdu);
                     uint32_t pad = link_padding(*pdu);
                     Bytes y = pdu->serialize();
                     PDU* q = 0;
-                    try { q = ep.fn(y.data(), (uint32_t)y.size()); }
-                    catch (malformed_packet&) { sig = "roundtrip:reparse-rejected:" + ep.name; detail = "serialization of an accepted packet is rejected: " + hex(y).substr(0, 400); }
+                    struct Del { PDU*& p; ~Del() { delete p; p = 0; } } del_q{q};
+                    try { q = reparse(ep, *pdu, y); }
+                    catch (malformed_packet&) { sig = "roundtrip:reparse-rejected:" + deepest_class(*pdu); detail = "serialization of an accepted packet is rejected: " + hex(y).substr(0, 400); }
                     if (q) {
                         PacketView qv = packet_view(*q);
                         std::string d = compare_views(pv, qv, pad);
                         if (!d.empty()) { size_t bar = d.find('|'); sig = d.substr(0, bar); detail = d.substr(bar + 1) + "  y=" + hex(y).substr(0, 300); }
                         else if (!pv.payload.empty()) {
                             Bytes y2 = q->serialize();
-                            if (y2 != y) { sig = "roundtrip:second-serialization-differs:" + ep.name; detail = "y=" + hex(y).substr(0, 300) + " y2=" + hex(y2).substr(0, 300); }
+                            if (y2 != y) { sig = "roundtrip:second-serialization-differs:" + deepest_class(*pdu); detail = "y=" + hex(y).substr(0, 300) + " y2=" + hex(y2).substr(0, 300); }
                         }
-                        R.count("roundtrips");
-                        R.dist("distinct_views", fnv(view_str(pv.layers.empty() ? View() : pv.layers.back().entries), out.structure));
-                        delete q;
+                        n_roundtrips++;
+                        view_hash = fnv(view_str(pv.layers.empty() ? View() : pv.layers.back().entries), out.structure);
                     }
-                } catch (std::exception& e) { if (sig.empty()) { sig = "exc:" + std::string(typeid(e).name()) + ":roundtrip:" + ep.name; detail = e.what(); } }
+                } catch (std::exception& e) { if (sig.empty()) { sig = "exc:" + std::string(typeid(e).name()) + ":roundtrip:" + deepest_class(*pdu); detail = e.what(); } }
             }
         }
         delete pdu;
@@ -103,13 +119,20 @@ static Outcome run_case(const EntryPoint& ep, const uint8_t* data, size_t n, boo
     alarm(0);
     free(buf);
     if (Mon::errors && (sig.empty() || sig.compare(0, 4, "exc:") == 0)) { sig = Mon::first; detail = Mon::first_detail; }
-    if (sig.empty() && live_allocs() != ledger0) {
-        // confirm: a lazily initialised static would allocate only once
+    bool ledger_off = sig.empty() && live_allocs() != ledger0;
+    if (record && n_roundtrips) { R.count("roundtrips", n_roundtrips); R.dist("distinct_views", view_hash); }
+    if (record && n_skipped_env) R.count("skipped_env");
+    if (record && n_serialized) R.count("packets_serialized");
+    if (ledger_off && !g_confirming) {
+        // confirm: harness-side or library-side lazily initialised statics allocate once; a leak repeats. Re-run the identical case twice.
+        g_confirming = true;
         long l1 = live_allocs();
-        PDU* again = 0;
-        try { again = ep.fn(data, (uint32_t)n); } catch (...) {}
-        if (again) { try { View v = view(*again, 0); PDU* c = again->clone(); delete c; } catch (...) {} delete again; }
-        if (live_allocs() != l1) { sig = "leak:" + ep.name; detail = std::to_string(live_allocs() - l1) + " allocation(s) not released"; }
+        g_index--; run_case(ep, data, n, false);
+        long l2 = live_allocs();
+        g_index--; run_case(ep, data, n, false);
+        long l3 = live_allocs();
+        g_confirming = false;
+        if (l3 != l2 && l2 != l1) { sig = "leak:" + ep.name; detail = std::to_string(l3 - l2) + " allocation(s) not released per execution"; }
     }
     if (record) {
         R.count("evaluations");
